@@ -51,7 +51,7 @@ FIRST = ("action_type", "message_type", "action_status")
 
 def names():
     alphabet = st.characters(blacklist_categories=("Cs", "Cc", "Zs", "Zl", "Zp"), blacklist_characters="=\x85\xa0")
-    return st.one_of(st.sampled_from(["a", "key", "x_y", "résumé", "n", "0", "-"]), st.text(alphabet=alphabet, min_size=1, max_size=6)).filter(
+    return st.one_of(st.sampled_from(["a", "key", "x_y", "résumé", "n", "0", "-", "level", "time", "message", "self", "format", "template", "uuid", "header"]), st.text(alphabet=alphabet, min_size=1, max_size=6)).filter(
         lambda s: s not in REQUIRED and s not in FIRST and s != V.TAG and not any(c.isspace() for c in s)
     )
 
@@ -623,8 +623,18 @@ class FakeSys(object):
     def __init__(self, argv, stdin):
         self.argv = argv
         self.stdin = stdin
-        self.stdout = io.StringIO()
+        # a real standard output: text layer over bytes, UTF-8, strict
+        self.stdout = _Utf8Out()
         self.stderr = io.StringIO()
+
+
+class _Utf8Out(io.TextIOWrapper):
+    def __init__(self):
+        io.TextIOWrapper.__init__(self, io.BytesIO(), encoding="utf-8", errors="strict", newline="\n")
+
+    def getvalue(self):
+        self.flush()
+        return self.buffer.getvalue().decode("utf-8")
 
 
 def check_filter(case):
@@ -635,6 +645,9 @@ def check_filter(case):
         m["n"] = i if case.get("number") else m.get("n", i * 3)
         if not isinstance(m["n"], int) or isinstance(m["n"], bool):
             m["n"] = i
+        if case.get("surrogate") and i == 0:
+            # a foreign producer (or a name with undecodable bytes) wrote a lone-surrogate escape: valid JSON
+            m["sur"] = "x\udcffy"
         msgs.append(m)
     raws = [encode_line(m) for m in msgs]
     loaded = [json.loads(r) for r in raws]
@@ -658,7 +671,7 @@ def check_filter(case):
             require(rc == 0, "filter-exit", "main returned %r" % (rc,))
             out = fake.stdout.getvalue()
         else:
-            o = io.StringIO()
+            o = _Utf8Out()
             ef.EliotFilter(expr, [r + b"\n" for r in raws], o).run()
             out = o.getvalue()
     except Violation:
@@ -684,12 +697,15 @@ def classify_filter(case, info):
         labels.append("skipped-some")
     if info["special"]:
         labels.append("unicode-line-separator-in-value")
+    if case.get("surrogate"):
+        labels.append("lone-surrogate-escape-in-input")
     return bool(info["skipped"] or info["special"] or case["expr"] % len(EXPRS) in (2, 3, 8)), labels
 
 
 def filter_strategy():
     return st.builds(
-        lambda mode, expr, number, msgs: {"mode": mode, "expr": expr, "number": number, "messages": msgs},
+        lambda sur, mode, expr, number, msgs: {"surrogate": sur, "mode": mode, "expr": expr, "number": number, "messages": msgs},
+        st.sampled_from([False, False, True]),
         st.sampled_from(["main-text", "main-textio", "bytes"]),
         st.integers(0, len(EXPRS) - 1),
         st.booleans(),
